@@ -2,10 +2,12 @@
    bool, option, list, prod, unit, sumbool map to OCaml's; Z, positive, nat
    stay inductive. No Extract Constant. Run from /verif/ocaml (see build.sh). *)
 From Coq Require Import Extraction ExtrOcamlBasic.
-From MPB Require Import Base BarState F64 Percent Filler Decor Container.
+From MPB Require Import Base BarState F64 Percent Filler Decor Container Sync SizeFmt Proxy.
 Extraction Language OCaml.
 Extraction "mpb_model.ml"
   Z.add Z.mul Z.sub Z.quotrem Z.of_nat Z.to_nat Z.compare Z.opp
   wrap64 binit bapply bstep bev_step brender bexit obs completed
   cells fill_bar fill_spinner draw_row canon segs_width decor_plain
-  init_cst step first_reject.
+  init_cst step first_reject
+  pstep offers_fast size_format percent_format time_fields ewma_update float_bits speed_of_avg speed_of_avg_q units1024 units1000
+  sstep exec finished answer_of.
